@@ -30,6 +30,23 @@ def probes():
     probe("complex(x)", lambda: all(_ok(lambda: complex(n)) for n in nums) and not _ok(lambda: complex(x)) and not _ok(lambda: complex(x + 1)))
     probe("float(Val)", lambda: float(sp.Rational(1, 4)) == 0.25 and float(oo) == float("inf") and not _ok(lambda: float(1 + 2 * I)) and not _ok(lambda: float(x)))
     probe("sympy.re/im", lambda: sp.re(3 + 4 * I) == 3 and sp.im(3 + 4 * I) == 4 and sp.im(sp.Rational(5, 2)) == 0)
+    def assumption_probe():
+        import z3 as _z3
+        from . import frontend as FE_, model as M_
+        samples = [(S.Zero, (M_.FIN, 0, 0)), (Float(0.0), (M_.FIN, 0, 0)), (sp.Integer(3), (M_.FIN, 3, 0)), (sp.Rational(-2, 7), (M_.FIN, sp.Rational(-2, 7), 0)),
+                   (Float(2.5), (M_.FIN, sp.Rational(5, 2), 0)), (oo, (M_.PINF, 0, 0)), (-oo, (M_.NINF, 0, 0)), (nan, (M_.NAN, 0, 0)),
+                   (1 + 2 * I, (M_.FIN, 1, 2)), (3 * I, (M_.FIN, 0, 3)), (x, (M_.SYMB, 0, 0)), (x + 1, (M_.SYMB, 0, 0))]
+        for val, (k, re_, im_) in samples:
+            v = M_.v_mk(k, _z3.RealVal(str(re_)), _z3.RealVal(str(im_)))
+            for name in ("is_zero", "is_finite", "is_infinite", "is_real", "is_positive", "is_negative", "is_nonzero"):
+                tri = FE_.val_assumption(v, name)
+                real = getattr(val, name)
+                mt, mf = _z3.is_true(_z3.simplify(tri.t)), _z3.is_true(_z3.simplify(tri.f))
+                model = True if mt else False if mf else None
+                if model != real:
+                    raise AssertionError(f"{name} of {val}: model {model}, SymPy {real}")
+        return True
+    probe("assumption attributes (three-valued) of numeric values", assumption_probe)
     probe("Expr.is_zero", lambda: Float(0.0).is_zero is True and S.Zero.is_zero is True and S.One.is_zero is False and x.is_zero is None and oo.is_zero is False)
     probe("Dimension.subs('angle', 1)", lambda: all(_vec(d.subs("angle", S.One)) == {k: v for k, v in _vec(d).items() if k != "angle"} for d in dims))
     probe("dimsys_SI.equivalent_dims == equality of dependency vectors", lambda: all(dimsys_SI.equivalent_dims(a, b) == (_vec(a) == _vec(b)) for a, b in itertools.product(dims, dims)))
